@@ -408,6 +408,25 @@ Proof.
     repeat split; intros; try discriminate; try lia; auto.
 Qed.
 
+(* success(target): some progress coordinate lies strictly above the target *)
+Theorem success_spec p t b :
+  success p t = Some b -> (b = true <-> exists x, In x (orders p) /\ t < x).
+Proof.
+  unfold success. destruct (ordermax p) as [[omax i]|] eqn:E; [|discriminate].
+  intros H. injection H as <-.
+  destruct (ordermax_extreme _ _ _ E) as (Hin & Hmax).
+  split.
+  - intros Hlt. apply Z.ltb_lt in Hlt. exists omax. split; assumption.
+  - intros (x & Hx & Hlt). apply Z.ltb_lt. specialize (Hmax x Hx). lia.
+Qed.
+
+Theorem success_defined p t : success p t = None <-> pts p = [].
+Proof.
+  unfold success, ordermax, orders. destruct (pts p) as [|f r]; cbn.
+  - split; reflexivity.
+  - destruct (argmax_from (ford f) 0%nat 1%nat (map ford r)). split; discriminate.
+Qed.
+
 (* ---------------------------------------------------------------- whole frames
    [ftag] is the opaque payload of a frame: it stands for EVERY attribute of the System
    object other than order[0] and vel_rev (config, order[1:], pos, vel, ekin, vpot, box,
